@@ -211,6 +211,7 @@ pub fn check_package(opts: PackageInputs) -> Result<InterfaceUnit, CompilationEr
     let mut deps_envs = HashMap::new();
     let mut deps_interfaces = HashMap::new();
     let mut dep_hashes = BTreeMap::new();
+    let mut dep_units = Vec::new();
 
     for dep in deps {
         if dep == opts.package {
@@ -224,15 +225,32 @@ pub fn check_package(opts: PackageInputs) -> Result<InterfaceUnit, CompilationEr
         deps_envs.insert(dep.clone(), unit.exports.to_genv());
         deps_interfaces.insert(dep.clone(), unit.hir_interface.clone());
         dep_hashes.insert(dep, unit.interface_hash.clone());
+        dep_units.push(unit);
     }
 
     let (tast, exports, hir_interface, diagnostics) =
         typecheck_single_package(&opts.package, files, &deps_interfaces, deps_envs);
-    drop(tast);
 
     let interface = InterfaceUnit::new(opts.package.clone(), exports, hir_interface, dep_hashes);
     if diagnostics.has_errors() {
         return Err(CompilationError::Typer { diagnostics });
+    }
+
+    // The match compiler reports user errors of its own (a literal match without a
+    // catch-all arm): `check` answers for them as `build` does, the Core is not kept.
+    let mut env = GlobalTypeEnv::new();
+    for dep in dep_units.iter() {
+        dep.exports.apply_to(&mut env);
+    }
+    interface.exports.apply_to(&mut env);
+    let mut compile_diagnostics = Diagnostics::new();
+    let core_ir =
+        crate::compile_match::compile_file(&env, &Gensym::new(), &mut compile_diagnostics, &tast);
+    drop(core_ir);
+    if compile_diagnostics.has_errors() {
+        return Err(CompilationError::Compile {
+            diagnostics: compile_diagnostics,
+        });
     }
 
     Ok(interface)
